@@ -1713,11 +1713,23 @@ def external_modules(interp):
                           (isinstance(v, Sym) and v.kind == 'int') or
                           getattr(v, 'np_scalar', None) == 'integer'),
     })
+    def curve_fit(it, f, xdata, ydata, *a, **kw):
+        """assumed contract of scipy.optimize.curve_fit: one value per free
+        parameter of f (nothing assumed about the values)"""
+        from .values import FuncV
+        if not isinstance(f, FuncV):
+            raise Unsupported('curve_fit of a non-function')
+        npar = len(f.node.args.args) - 1
+        it.ext_calls.append(('curve_fit', f, xdata, ydata))
+        return [NDArr([Sym(it.ctx.fresh('curve_fit_p%d' % k, 'real'))
+                       for k in range(npar)]), Opaque('pcov')]
+    E['scipy.optimize'] = _mod('scipy.optimize', {'curve_fit': B('curve_fit', curve_fit)})
     E['scipy.integrate'] = _mod('scipy.integrate', {
         'quad': B('quad', lambda it, func, a, b, **kw:
                   (integral_model(it, func, a, b), Fraction(0))),
     })
-    E['scipy'] = _mod('scipy', {'integrate': E['scipy.integrate']})
+    E['scipy'] = _mod('scipy', {'integrate': E['scipy.integrate'],
+                                'optimize': E['scipy.optimize']})
     E['os'] = _mod('os', {})
     E['re'] = _mod('re', _re_table(interp))
     E['itertools'] = _mod('itertools', {
